@@ -83,3 +83,9 @@ package xpub
 //@   ensures result.Self == 32 && result.Peer == 33 && result.SelfName == "pub" && result.PeerName == "sub"
 //@
 // ---- end generated Info contracts ----
+
+// ---- RemovePipe: the pipe leaves the map and its close channel is closed (round 7b) ----
+//@ func (*socket).RemovePipe
+//@   before call:delete#1 assert arg0 == s.pipes && held(s.Mutex)
+//@   before call:close#1 assert arg0 == p.closeq
+//@   ensures called("delete")
